@@ -54,6 +54,19 @@ const (
 	REStoreNotMatch  Fate = "re-store-not-match"
 	RERaftTooLarge   Fate = "re-raft-entry-too-large"
 	REUnknown        Fate = "re-unknown"
+	// rarer answers of a store (all synthesised without executing the request, as TiKV refuses them before proposing)
+	RERecoveryInProgress   Fate = "re-recovery-in-progress"
+	REIsWitness            Fate = "re-is-witness"
+	REFlashbackInProgress  Fate = "re-flashback-in-progress" // a definite refusal: the caller gets an error at once
+	RERegionNotInitialized Fate = "re-region-not-initialized"
+	REKeyNotInRegion       Fate = "re-key-not-in-region"
+	REMismatchPeerID       Fate = "re-mismatch-peer-id"
+	REReadIndexNotReady    Fate = "re-read-index-not-ready"
+	REProposalInMerging    Fate = "re-proposal-in-merging-mode"
+	REServerIsBusyHint     Fate = "re-server-busy-hint" // with a suggested back-off and an estimated wait
+	// ExecUndetermined: the request IS executed, the answer is the region error UndeterminedResult (TiKV could not
+	// learn whether its proposal was applied): the caller must not take it for a refusal
+	ExecUndetermined Fate = "exec-undetermined"
 	TopoSplit        Fate = "topo-split"     // split the target region first, then execute
 	TopoLeader       Fate = "topo-leader"    // move the leader first, then execute
 	TopoSplitAfter   Fate = "topo-split-aft" // execute, then split (response still delivered)
@@ -689,6 +702,17 @@ func (c *Conn) SendRequest(ctx context.Context, addr string, req *tikvrpc.Reques
 	}
 }
 
+// proposes: the commands a store turns into a raft proposal (only those can end with an undetermined result).
+func proposes(t tikvrpc.CmdType) bool {
+	switch t {
+	case tikvrpc.CmdPrewrite, tikvrpc.CmdCommit, tikvrpc.CmdPessimisticLock, tikvrpc.CmdPessimisticRollback, tikvrpc.CmdBatchRollback,
+		tikvrpc.CmdResolveLock, tikvrpc.CmdCleanup, tikvrpc.CmdCheckTxnStatus, tikvrpc.CmdCheckSecondaryLocks, tikvrpc.CmdTxnHeartBeat,
+		tikvrpc.CmdFlush, tikvrpc.CmdRawPut, tikvrpc.CmdRawDelete, tikvrpc.CmdRawBatchPut, tikvrpc.CmdRawBatchDelete, tikvrpc.CmdRawDeleteRange, tikvrpc.CmdRawCompareAndSwap:
+		return true
+	}
+	return false
+}
+
 // stagger: a cancelled context, a crash of the client or a common time-out wakes every caller of that client that is
 // parked in the network at the same simulated instant; on several processors they would then run in parallel and reach
 // shared state of the library (the global random source of the back-off jitter, the region cache) in an order nobody
@@ -742,6 +766,15 @@ func (n *Net) arrive(rec *RPCRecord, fkey string, ch chan rpcResult, ctx context
 		n.fired(fkey, rec)
 		n.exec(rec)
 		n.Cut(rec.Client)
+	case f == ExecUndetermined:
+		n.exec(rec)
+		if rec.ExecErr == nil && proposes(rec.Type) {
+			n.fired(fkey, rec)
+			if resp, err := tikvrpc.GenRegionErrorResp(rec.Req, &errorpb.Error{Message: "sim", UndeterminedResult: &errorpb.UndeterminedResult{Message: "sim"}}); err == nil {
+				rec.Resp = resp
+			}
+		}
+		respond(rpcResult{rec.Resp, rec.ExecErr}, 0)
 	case f.IsRegionErr():
 		n.fired(fkey, rec)
 		resp, err := tikvrpc.GenRegionErrorResp(rec.Req, regionErrFor(f, rec))
@@ -845,6 +878,24 @@ func regionErrFor(f Fate, rec *RPCRecord) *errorpb.Error {
 		return &errorpb.Error{Message: "sim", StoreNotMatch: &errorpb.StoreNotMatch{}}
 	case RERaftTooLarge:
 		return &errorpb.Error{Message: "sim", RaftEntryTooLarge: &errorpb.RaftEntryTooLarge{RegionId: rid}}
+	case RERecoveryInProgress:
+		return &errorpb.Error{Message: "sim", RecoveryInProgress: &errorpb.RecoveryInProgress{RegionId: rid}}
+	case REIsWitness:
+		return &errorpb.Error{Message: "sim", IsWitness: &errorpb.IsWitness{RegionId: rid}}
+	case REFlashbackInProgress:
+		return &errorpb.Error{Message: "sim", FlashbackInProgress: &errorpb.FlashbackInProgress{RegionId: rid, FlashbackStartTs: 1}}
+	case RERegionNotInitialized:
+		return &errorpb.Error{Message: "sim", RegionNotInitialized: &errorpb.RegionNotInitialized{RegionId: rid}}
+	case REKeyNotInRegion:
+		return &errorpb.Error{Message: "sim", KeyNotInRegion: &errorpb.KeyNotInRegion{Key: firstKeyOf(rec.Req), RegionId: rid}}
+	case REMismatchPeerID:
+		return &errorpb.Error{Message: "sim", MismatchPeerId: &errorpb.MismatchPeerId{RequestPeerId: rec.Req.Context.GetPeer().GetId(), StorePeerId: rec.Req.Context.GetPeer().GetId() + 1000}}
+	case REReadIndexNotReady:
+		return &errorpb.Error{Message: "sim", ReadIndexNotReady: &errorpb.ReadIndexNotReady{RegionId: rid, Reason: "sim"}}
+	case REProposalInMerging:
+		return &errorpb.Error{Message: "sim", ProposalInMergingMode: &errorpb.ProposalInMergingMode{RegionId: rid}}
+	case REServerIsBusyHint:
+		return &errorpb.Error{Message: "sim", ServerIsBusy: &errorpb.ServerIsBusy{Reason: "sim", BackoffMs: 40, EstimatedWaitMs: 120}}
 	}
 	return &errorpb.Error{Message: "sim: unknown region error"}
 }
